@@ -105,6 +105,10 @@ def work(case):
                 add('live-process-not-subscribed', 'a live process with a communicator is subscribed for RPC and broadcast messages '
                     '(remote control reaches it) until it terminates', dict(line=ln[:200]))
                 break
+    for mid, what in sorted(r.get('reply_leaks', {}).items()):
+        add('reply-is-a-future', 'the reply is the (eventual) return value of the direct call - a value, not a future of the '
+            'process\'s own loop that is still to be awaited', dict(id=mid, reply=what))
+        break
     facts = dict(hist=r['hist'], handled=sum(1 for e in r['events'] if e['kind'] == 'call'), nlines=len(r['lines']))
     if kind == 'twin':
         t = ci.run_twin(prog, r)
@@ -270,6 +274,14 @@ def gen_cases(ctx):
         npos = n_positions('PauseFault') + 3
         for s in schedules(npos, MESSAGES + ['env resume'], k):
             cases.append(('twin', 'PauseFault', s, None))
+    # a program whose pause() / kill() answer later, with a future inside a future (impl-only: twin comparison)
+    for k in range(1, 3):
+        npos = n_positions('Deferred') + 3
+        scheds = list(schedules(npos, MESSAGES, k))
+        if k == 2 and len(scheds) > (2000 if thorough else 400):
+            scheds = rng.sample(scheds, 2000 if thorough else 400)
+        for s in scheds:
+            cases.append(('twin', 'Deferred', s, None))
     # broadcast failures: every tolerated class and one non-tolerated exception at every transition index
     tol = sorted(set(ci.tolerated_classes()) | set(ci.property_kinds()))   # what the source tolerates + what the property names
     for prog in PROGS_QUICK:
